@@ -22,7 +22,18 @@
            4r+2) and prints what the harness prints when its one-sided checks
            pass.
    mode 3  [3; off_s; off_ns; per_s; per_ns]  second tick of an Interval whose
-           start lies `off` in the past.                                      *)
+           start lies `off` in the past.
+   mode 4  [4; drv; n; steps..]  Runtime::poll_with / poll called by hand on a
+           real Runtime (slot clock as in mode 1):
+                   1 t d       sleep_until(d), polled once  -> 1 ready | 0 pending
+                   2 t ans rem one turn: rem=1 poll_with(Some(ZERO)), rem=0 poll();
+                               ans=1 an I/O completion is waiting for the driver,
+                               ans=0 nothing is (TimedOut)   -> n wk1..wkn
+                   3 t i       drop sleep i                 -> 0
+           result: 0, step outputs, n, deadline slots left in the wheel.
+   mode 5  [5; lead_s; lead_ns; per_s; per_ns; c]  Interval starting `lead` in the
+           future whose first tick is cancelled c times: the deadline of every
+           one of those ticks, read back from the wheel, is start.            *)
 From Compio.Model Require Import Base Timer.
 
 Local Open Scope Z_scope.
@@ -183,7 +194,9 @@ Inductive bstep :=
 | BPipeIo (nb : N)
 | BJoin (j : nat)
 | BSelectDrop (a b : N)
-| BYields (k : N).
+| BYields (k : N)
+| BBusy (d kind : N)
+| BIntervalCancel (s p c n : N).
 
 Definition MAX_SLOT : N := 12.
 Definition slot_ok (x : N) : bool := (x <=? MAX_SLOT)%N.
@@ -235,6 +248,14 @@ Fixpoint dec_bsteps (n : nat) (joined : list bool) (l : list N) : option (list b
       else None
     | 9%N :: k :: r =>
       if (k <=? 50)%N then let? '(s, r') := dec_bsteps n' joined r in Some (BYields k :: s, r')
+      else None
+    | 10%N :: d :: k :: r =>
+      if slot_ok d && (k <=? 3)%N then
+        let? '(s, r') := dec_bsteps n' joined r in Some (BBusy d k :: s, r')
+      else None
+    | 11%N :: s0 :: p :: c :: m :: r =>
+      if slot_ok s0 && (p <=? 16)%N && (c <=? 4)%N && (m <=? 5)%N then
+        let? '(s, r') := dec_bsteps n' joined r in Some (BIntervalCancel s0 p c m :: s, r')
       else None
     | _ => None
     end
@@ -288,6 +309,45 @@ Fixpoint run_ticks (n : nat) (iv : interval) (prev : option Z) (cur : Z) (w : wh
     run_ticks n' (tick_done iv) (Some dl) cur' (sleep_drop s w2) (acc ++ [code])
   end.
 
+(* a Timeout with deadline [dl] around an inner future that is ready from [ri]
+   on ([inner_sleep]: the inner future is itself a sleep of the wheel): first
+   poll now, then the wake at the earlier of the two instants and the poll it
+   causes *)
+Definition nominal_timeout (cur dl ri : Z) (inner_sleep : bool) (w : wheel)
+  : R (tres * Z * wheel) :=
+  let! '(si, w1) := (if inner_sleep then sleep_new cur ri w else Ok (None, w)) in
+  let! '(st, w2) := sleep_new cur dl w1 in
+  let c' := Z.min ri dl in
+  let evs := [TPoll (ri <=? cur) 0%N; TOp (OWake c'); TPoll (ri <=? c') 0%N] in
+  let! '(res, w3) := timeout_drive st w2 evs in
+  let cur' := if (ri <=? cur) || (dl <=? cur) then cur else c' in
+  Ok (res, cur', sleep_drop si w3).
+
+(* the block_on loop while another task keeps the driver busy: every turn finds
+   a completion (DOk), tasks remain, the driver is polled with a zero timeout *)
+Fixpoint busy_until (fuel : nat) (s : sleep) (cur : Z) (w : wheel) : Z * wheel :=
+  match fuel with
+  | O => (cur, w)
+  | S f =>
+    if fst (sleep_poll s 0%N w) then (cur, w)
+    else
+      match loop_iter true DOk cur (cur + 1) w with
+      | Ok (_, _, w') => busy_until f s (cur + 1) w'
+      | Panic _ => (cur, w)
+      end
+  end.
+
+(* first ticks cancelled by a timeout one unit ahead *)
+Fixpoint run_cancels (n : nat) (iv : interval) (cur : Z) (w : wheel) (acc : list N)
+  : R (interval * list N * Z * wheel) :=
+  match n with
+  | O => Ok (iv, acc, cur, w)
+  | S n' =>
+    let! '(res, cur', w') := nominal_timeout cur (cur + 1) (tick_deadline iv cur) true w in
+    let iv' := match res with TOk => tick_done iv | _ => iv end in
+    run_cancels n' iv' cur' w' (acc ++ [tres_code res])
+  end.
+
 Fixpoint run_bsteps (steps : list bstep) (cur : Z) (w : wheel)
   (sleepers : list (Z * option sleep)) (acc : list N) : list N :=
   match steps with
@@ -326,25 +386,9 @@ Fixpoint run_bsteps (steps : list bstep) (cur : Z) (w : wheel)
           (acc ++ [if Nat.eqb (length (wmap w3)) (length (wmap w)) then 1%N else 73%N])
       end
     | BTimeout d r0 kind =>
-      let dl := qd d in
-      let ri := qr r0 in
-      (* kind 0: the inner future is itself a sleep (created first); otherwise
-         it is completed by a helper thread *)
-      match (if (kind =? 0)%N then sleep_new cur ri w else Ok (None, w)) with
+      match nominal_timeout cur (qd d) (qr r0) (kind =? 0)%N w with
       | Panic c => enc_panic c
-      | Ok (si, w1) =>
-        match sleep_new cur dl w1 with
-        | Panic c => enc_panic c
-        | Ok (st, w2) =>
-          let c' := Z.min ri dl in
-          let evs := [TPoll (ri <=? cur) 0%N; TOp (OWake c'); TPoll (ri <=? c') 0%N] in
-          match timeout_drive st w2 evs with
-          | Panic c => enc_panic c
-          | Ok (res, w3) =>
-            let cur' := if (ri <=? cur) || (dl <=? cur) then cur else c' in
-            run_bsteps r cur' (sleep_drop si w3) sleepers (acc ++ [tres_code res])
-          end
-        end
+      | Ok (res, cur', w') => run_bsteps r cur' w' sleepers (acc ++ [tres_code res])
       end
     | BInterval s0 p m _ =>
       match interval_at (qd s0) (zn p) with
@@ -378,6 +422,31 @@ Fixpoint run_bsteps (steps : list bstep) (cur : Z) (w : wheel)
         end
       end
     | BYields _ => run_bsteps r cur w sleepers (acc ++ [1%N])
+    | BBusy d kind =>
+      match sleep_new cur (qd d) w with
+      | Panic c => enc_panic c
+      | Ok (s, w1) =>
+        let '(cur', w2) := busy_until (S (Z.to_nat (qd d - cur))) s cur w1 in
+        if (kind <=? 1)%N then
+          (* a Timeout around the busy loop: its inner future is never ready *)
+          let '(res, w3) := timeout_poll false s 0%N w2 in
+          run_bsteps r cur' (sleep_drop s w3) sleepers (acc ++ [tres_code res])
+        else
+          run_bsteps r cur' (sleep_drop s w2) sleepers (acc ++ [judge s (qd d) cur' w2])
+      end
+    | BIntervalCancel s0 p c m =>
+      match interval_at (qd s0) (zn p) with
+      | Panic c => enc_panic c
+      | Ok iv =>
+        match run_cancels (nn c) iv cur w acc with
+        | Panic c => enc_panic c
+        | Ok (iv', acc', cur', w') =>
+          match run_ticks (nn m) iv' None cur' w' acc' with
+          | Panic c => enc_panic c
+          | Ok (acc'', cur'', w'') => run_bsteps r cur'' w'' sleepers acc''
+          end
+        end
+      end
     end
   end.
 
@@ -416,11 +485,104 @@ Definition run_i (l : list N) : option (list N) :=
   end.
 
 (* ---------------------------------------------------------------------- *)
+(* mode 4: the loop turn on a real Runtime                                  *)
+
+Inductive lstep :=
+| LSleep (t d : N)
+| LTurn (t : N) (ans rem : bool)
+| LDrop (t : N) (i : nat).
+
+Fixpoint dec_lsteps (n : nat) (made : nat) (last : N) (l : list N) : option (list lstep * list N) :=
+  match n with
+  | O => Some ([], l)
+  | S n' =>
+    match l with
+    | op :: t :: r =>
+      if negb (time_ok last t) then None else
+      match op, r with
+      | 1%N, d :: r' =>
+        if (MAX_D <? d)%N || Nat.leb 16 made then None else
+        let? '(s, r'') := dec_lsteps n' (S made) t r' in Some (LSleep t d :: s, r'')
+      | 2%N, ans :: rem :: r' =>
+        if (1 <? ans)%N || (1 <? rem)%N || ((rem =? 0)%N && (ans =? 0)%N) then None else
+        let? '(s, r'') := dec_lsteps n' made t r' in
+        Some (LTurn t (ans =? 1)%N (rem =? 1)%N :: s, r'')
+      | 3%N, i :: r' =>
+        if Nat.ltb (nn i) made then
+          let? '(s, r'') := dec_lsteps n' made t r' in Some (LDrop t (nn i) :: s, r'')
+        else None
+      | _, _ => None
+      end
+    | _ => None
+    end
+  end.
+
+Fixpoint run_lsteps (steps : list lstep) (w : wheel) (sleeps : list sleep) (acc : list N) : list N :=
+  match steps with
+  | [] => acc ++ [NN (length (wmap w))] ++ map (fun e : entry => nz (kdl (fst e) / 2)) (wmap w)
+  | st :: r =>
+    match st with
+    | LSleep t d =>
+      match sleep_new (clk t) (dln d) w with
+      | Panic c => enc_panic c
+      | Ok (s, w1) =>
+        let '(b, w2) := sleep_poll s (NN (length sleeps)) w1 in
+        run_lsteps r w2 (sleeps ++ [s]) (acc ++ [bN b])
+      end
+    | LTurn t ans rem =>
+      match loop_iter rem (if ans then DOk else DTimedOut) (clk t) (clk t) w with
+      | Panic c => enc_panic c
+      | Ok (_, ws, w') => run_lsteps r w' sleeps (acc ++ enc_woken ws)
+      end
+    | LDrop _ i => run_lsteps r (sleep_drop (key_at sleeps i) w) sleeps (acc ++ [0%N])
+    end
+  end.
+
+Definition run_l (l : list N) : option (list N) :=
+  match l with
+  | drv :: n :: r =>
+    if (1 <? drv)%N then None else
+    let? '(steps, rest) := dec_lsteps (nn n) 0 0%N r in
+    match rest with
+    | [] => Some (run_lsteps steps wheel_new [] [0%N])
+    | _ => None
+    end
+  | _ => None
+  end.
+
+(* ---------------------------------------------------------------------- *)
+(* mode 5: first tick of an Interval cancelled c times                      *)
+
+Fixpoint cancelled_firsts (n : nat) (iv : interval) (now : Z) : list N :=
+  match n with
+  | O => []
+  | S n' => bN (tick_deadline iv now =? istart iv) :: cancelled_firsts n' iv now
+  end.
+
+Definition run_f (l : list N) : option (list N) :=
+  match l with
+  | [lead_s; lead_ns; per_s; per_ns; c] =>
+    if (lead_ns <? 1000000000)%N && (per_ns <? 1000000000)%N
+       && (1 <=? lead_s)%N && (lead_s <=? 50000000000)%N && (per_s <=? 50000000000)%N
+       && (c <=? 5)%N then
+      let start := zn lead_s * NANOS_PER_SEC + zn lead_ns in
+      let period := zn per_s * NANOS_PER_SEC + zn per_ns in
+      match interval_at start period with
+      | Panic c => Some (enc_panic c)
+      | Ok iv => Some ([0%N] ++ cancelled_firsts (nn c) iv 0 ++ [1%N])
+      end
+    else None
+  | _ => None
+  end.
+
+(* ---------------------------------------------------------------------- *)
 
 Definition run_c09 (l : list N) : list N :=
   match l with
   | 1%N :: r => match run_a r with Some o => o | None => BAD_CASE end
   | 2%N :: r => match run_b r with Some o => o | None => BAD_CASE end
   | 3%N :: r => match run_i r with Some o => o | None => BAD_CASE end
+  | 4%N :: r => match run_l r with Some o => o | None => BAD_CASE end
+  | 5%N :: r => match run_f r with Some o => o | None => BAD_CASE end
   | _ => BAD_CASE
   end.
